@@ -22,6 +22,7 @@ import (
 	"github.com/ory/fosite/storage"
 	"github.com/ory/fosite/zz_verif_h/zz"
 	"github.com/ory/fosite/zz_verif_h/zzjwt"
+	"github.com/ory/fosite/zz_verif_h/zzuri"
 )
 
 const (
@@ -675,3 +676,66 @@ func ZZ_C15_assertion_jwks_uri() {
 		}
 	}
 }
+
+// ---- the default JWKS fetcher (client_authentication_jwks_strategy.go): whose keys does a jwks_uri give?
+//
+// Two clients register jwks_uris that are DIFFERENT strings (symbolic path segment and query value over
+// letters of both cases and digits); each location serves its own key set. Whatever was resolved and cached
+// before, resolving a location yields the key set served at exactly that location - never the set cached for
+// another client's location. (The request-object and client-assertion paths then select keys from that set:
+// ZZ_C15_assertion_jwks_uri, c13 request_object_signed.)
+func jwksResolve() {
+	ctx := context.Background()
+	alnum := zzuri.AllBut("ABCDEFGHIJKLMNOPQRSTUVWXYZabcdefghijklmnopqrstuvwxyz0123456789")
+	loc := func(name string) string {
+		l := "https://keys.example/tenants/" + zz.StringEx(name+".seg", 3, alnum) + "/jwks.json"
+		if zz.Choice(name+".query", 2) == 1 {
+			l += "?t=" + zz.StringEx(name+".q", 2, alnum)
+		}
+		return l
+	}
+	locA, locB := loc("a"), loc("b")
+	zz.Assume(locA != locB)
+	_, pubA := zzjwt.GenKey(zzjwt.RSA)
+	_, pubB := zzjwt.GenKey(zzjwt.RSA)
+	setA := &jose.JSONWebKeySet{Keys: []jose.JSONWebKey{{Key: pubA, KeyID: "key-of-a", Algorithm: "RS256", Use: "sig"}}}
+	setB := &jose.JSONWebKeySet{Keys: []jose.JSONWebKey{{Key: pubB, KeyID: "key-of-b", Algorithm: "RS256", Use: "sig"}}}
+	client := zz.ServeJWKS(map[string]*jose.JSONWebKeySet{locA: setA, locB: setB})
+	strat := fosite.NewDefaultJWKSFetcherStrategy(fosite.JWKSFetcherWithHTTPClient(client))
+	wait := func() {
+		if d, ok := strat.(*fosite.DefaultJWKSFetcherStrategy); ok {
+			d.WaitForCache()
+		}
+	}
+	kidOf := func(s *jose.JSONWebKeySet) string {
+		if s == nil || len(s.Keys) != 1 {
+			return ""
+		}
+		return s.Keys[0].KeyID
+	}
+	// client A's set is resolved first (and cached)
+	ra, err := strat.Resolve(ctx, locA, false)
+	zz.Assert(err == nil && kidOf(ra) == "key-of-a", "jwks: the first location yields its own key set")
+	wait()
+	// then client B's location, from the cache if the strategy thinks it has it, or forcing a refresh
+	force := zz.Choice("force-refresh", 2) == 1
+	rb, err := strat.Resolve(ctx, locB, force)
+	zz.Observe("b.kid", kidOf(rb))
+	zz.Assert(err == nil && kidOf(rb) == "key-of-b", "jwks: another location yields ITS key set, not the one cached for the first")
+	wait()
+	// and A again: still A's
+	ra2, err := strat.Resolve(ctx, locA, false)
+	zz.Assert(err == nil && kidOf(ra2) == "key-of-a", "jwks: the first location still yields its own key set")
+	// an unknown location is an error, not somebody's cached keys
+	rc, err := strat.Resolve(ctx, "https://keys.example/tenants/none/jwks.json", false)
+	zz.Assert(err != nil && rc == nil, "jwks: a location that serves nothing yields an error")
+	zz.Cover("jwks:two-locations-resolved", true)
+}
+
+func ZZ_C15_jwks_resolve() { jwksResolve() }
+
+// The same lemma is registered for the two other properties that rely on "a key registered for that client"
+// when the registration is a jwks_uri: client authentication at every endpoint (C10) and signed OpenID
+// Connect request objects (C13).
+func ZZ_C10_jwks_resolve() { jwksResolve() }
+func ZZ_C13_jwks_resolve() { jwksResolve() }
